@@ -14,7 +14,7 @@ from common import Work
 
 PRELUDE = '''type In struct { .V: i32, .W: [3]i32 };
 type S struct { .N: i32, .I: In, .A: [3]In, .D: []i32, .P: map[str]i32 };
-type H struct { .M: &'In, .R: &In, .K: i32 };
+type H struct { .M: &'In, .R: &In, .K: i32, .V: In, .FA: [2]In, .DA: []In };
 type Ctx struct { .Z: i32 };
 fn (x: &'In) bump() { x.V = x.V + 1; }
 fn (x: &'S) bump() { x.N = x.N + 1; }
@@ -40,7 +40,10 @@ STEPS = {
     "map": [(("i", "IMap"), "i32")],
     "i32": [],
     # the reference-field family (root type H)
-    "H": [(("f", "M"), "&'In"), (("f", "R"), "&In"), (("f", "K"), "i32")],
+    "H": [(("f", "M"), "&'In"), (("f", "R"), "&In"), (("f", "K"), "i32"), (("f", "V"), "In"), (("f", "FA"), "[2]In"),
+          (("f", "DA"), "[]In")],
+    "[2]In": [(("i", "IFixed"), "In")],
+    "[]In": [(("i", "IDyn"), "In")],
     "&'In": [(("f", "V"), "i32"), (("f", "W"), "[3]i32")],
     "&In": [(("f", "V"), "i32"), (("f", "W"), "[3]i32")],
 }
@@ -139,7 +142,19 @@ def scope_expr(kind):
 
 IMM_KINDS = ["const", "gconst", "catch", "immparam", "immrecv", "immlocal", "constimmref"] + FOR_IMM
 CTL_KINDS = ["let", "glet", "mutparam", "mutrecv", "mutlocal", "valparam", "valrecv", "constmutref"] + FOR_CTL
-H_KINDS = ["letH", "constH", "immparamH", "mutparamH"]
+KINDS.update({
+    "valparamH":  ("mkSym SParameter false RNone", "H"),
+    "valrecvH":   ("mkSym SReceiver false RNone", "H"),
+    "immrecvH":   ("mkSym SReceiver false RImm", "&H"),
+    "mutrecvH":   ("mkSym SReceiver false RMut", "&'H"),
+    "immlocalH":  ("mkSym SVariable false RImm", "&H"),
+    "mutlocalH":  ("mkSym SVariable false RMut", "&'H"),
+    "forvalH":    ("for_syms [None; Some 0%nat]", "H"),
+})
+# roots whose type has reference-typed fields: every root kind x chains through value / &T / &'T fields, fixed and
+# dynamic array elements (the chain rule C06_chain_rule_exact)
+H_KINDS = ["letH", "constH", "immparamH", "mutparamH", "valparamH", "valrecvH", "immrecvH", "mutrecvH", "immlocalH",
+           "mutlocalH", "forvalH"]
 # read-only bindings by the property text (the for index in BOTH shapes: `for i, v in e` and `for i, _ in e`)
 RO_KINDS = {"const", "gconst", "catch", "constimmref", "constmutref", "constH"} | set(FOR_IMM)
 CONTEXTS = ["function", "method", "closure", "loop", "match"]
@@ -199,7 +214,7 @@ def program(kind, ctx, stmt):
         return pre + enclose("", "", "    let rt := mkS();\n" + body)
     if kind == "glet":
         return pre + "let rt := %s;\n" % S_LIT + enclose("", "", body)
-    if kind.startswith("for"):
+    if kind.startswith("for") and ":" in kind:
         _, src, shape = kind.split(":")
         setup, expr = FOR_SOURCES[src]
         return pre + enclose("", "", "%s    for %s in %s {\n%s    }\n" % (setup, FOR_SHAPES[shape][0], expr, body))
@@ -223,7 +238,19 @@ def program(kind, ctx, stmt):
         rty = {"immrecv": "&S", "mutrecv": "&'S", "valrecv": "S"}[kind]
         return pre + "fn (rt: %s) work() {\n%s}\nfn main() {\n    let v := mkS();\n    v.work();\n}\n" % (rty, body)
     hsetup = "    let ha := mkIn();\n    let hb := mkIn();\n"
-    hlit = "{ .M = &'ha, .R = &hb, .K = 1 } as H"
+    hlit = "{ .M = &'ha, .R = &hb, .K = 1, .V = mkIn(), .FA = [mkIn(), mkIn()], .DA = [mkIn()] } as H"
+    hvset = hsetup + "    let hv := %s;\n" % hlit
+    if kind == "valparamH":
+        return pre + enclose("rt: H", "hv", body, hvset)
+    if kind in ("valrecvH", "immrecvH", "mutrecvH"):
+        rty = {"immrecvH": "&H", "mutrecvH": "&'H", "valrecvH": "H"}[kind]
+        return pre + "fn (rt: %s) work() {\n%s}\nfn main() {\n%s    hv.work();\n}\n" % (rty, body, hvset)
+    if kind == "immlocalH":
+        return pre + enclose("", "", hvset + "    let rt := &hv;\n" + body)
+    if kind == "mutlocalH":
+        return pre + enclose("", "", hvset + "    let rt := &'hv;\n" + body)
+    if kind == "forvalH":
+        return pre + enclose("", "", hvset + "    for _, rt in [hv] {\n%s    }\n" % body)
     if kind == "letH":
         return pre + enclose("", "", hsetup + "    let rt := %s;\n" % hlit + body)
     if kind == "constH":
@@ -326,10 +353,8 @@ def all_cases(maxlen, contexts, variant_rng):
             ttype = types[-1]
             for form, tmpl in forms_for(ttype, variant_rng.randrange(12)):
                 for ctx in contexts:
-                    if kind in ("immrecv", "mutrecv", "valrecv") and ctx == "function":
+                    if "recv" in kind and ctx == "function":
                         continue          # the receiver kinds live in a method by construction
-                    if kind in ("immrecv", "mutrecv", "valrecv") and ctx == "method":
-                        pass
                     cases.append(dict(kind=kind, steps=steps, types=types, form=form, tmpl=tmpl, ctx=ctx))
     return cases
 
@@ -350,6 +375,13 @@ def run_variant(c):
     stmt = "io::Println(%s); %s io::Println(%s);" % (pe, c["tmpl"] % render_place("rt", c["steps"]), pe)
     return 'import "std/io";\n' + program(c["kind"], c["ctx"], stmt)
 
+def class_sig(c):
+    if c["kind"].endswith("H"):
+        return tuple(refk(t) for st, t in zip(c["steps"], c["types"][1:]) if st[0] != "p")
+    if c["kind"].startswith("for"):
+        return 0
+    return len(c["steps"])
+
 def select(run, cases, n):
     """quick tier: all boundary shapes once (every kind x form x path, one context each), then a seeded sample."""
     rng = run.rng
@@ -369,8 +401,14 @@ def select(run, cases, n):
         for c in chosen:
             # for-loop kinds have only the paths rt / (rt): one class per (kind, form), so that every shape of the
             # for statement (index named / `_`, five sources) meets every mutation form in every run
-            plen = 0 if c["kind"].startswith("for") else len(c["steps"])
-            cls.setdefault((c["kind"], c["form"], plen), []).append(c)
+            # otherwise the signature of the chain: the reference kind of the root and of every link (value / &T / &'T)
+            # and whether an element is fixed or dynamic, parens ignored — so e.g. (value receiver, .R: &T, value field)
+            # is a class of its own and is present in every run
+            sig = class_sig(c)
+            fcls = c["form"]
+            if c["kind"].endswith("H") and fcls not in ("FAssign", "FCompound", "FIncDec"):
+                fcls = "non-write"      # reference-field roots: the three write forms each, the other forms as one class
+            cls.setdefault((c["kind"], fcls, sig), []).append(c)
         keep = [v[rng.randrange(len(v))] for _, v in sorted(cls.items(), key=repr)]
         pool = [c for c in chosen if c not in keep]
         rng.shuffle(pool)
@@ -506,13 +544,15 @@ def main(run):
     cases = all_cases(3, contexts, run.rng)
     total = len(cases)
     if not thorough:
-        cases = select(run, cases, 700)
+        cases = select(run, cases, 800)
     run.rule = ("one-mutation programs: root kind (17 immutable: const, module const, catch variable, &S parameter / receiver / "
                 "local, const &S, and the for index in the shapes `for i, v in e` / `for i, _ in e` over a literal, a fixed array, "
                 "a dynamic array, a range and a map; 15 mutable controls incl. `for _, v` / `for i, v` value variables and "
-                "one-variable loops; 4 roots with reference-typed fields) x access path of <= 3 steps "
+                "one-variable loops; 11 root kinds (let, const, by-value / & / &' parameter, value / & / &' receiver, & / &' local, loop "
+                "variable) of a struct with value, &T, &'T, fixed-array and dynamic-array fields, so every root kind meets every chain "
+                "signature of reference kinds in every run; 4 roots with reference-typed fields) x access path of <= 3 steps "
                 "(field / fixed, dynamic, map index / paren) x 7 mutation forms x 5 contexts; thorough enumerates the product, "
-                "quick keeps every (kind, form, path length) class and samples (kind, path, form) triples in a seeded context up to 700 programs; a case is distinct by "
+                "quick keeps every (kind, form, path length) class and samples (kind, path, form) triples in a seeded context up to 800 programs; a case is distinct by "
                 "(kind, path, form, context)")
     run.extra["product_size"] = total
     run.extra["exhaustive"] = bool(thorough)
